@@ -19,10 +19,12 @@ fn gen_values(rng: &mut SplitMix64) -> (f64, f64, f64, f64, f64) {
         _ => max * rng.log_uniform(1e-4, 1e-1),
     };
     let tol = rng.log_uniform(1e-7, 1e-2);
-    let start = match rng.below(4) {
-        0 => 0.0,
-        1 => -rng.unit() * 3.0,
-        2 => rng.unit() * 3.0,
+    let start = match rng.below(20) {
+        0..=4 => 0.0,
+        5..=9 => -rng.unit() * 3.0,
+        10..=14 => rng.unit() * 3.0,
+        // far from zero: the time axis has a coarse resolution there
+        15 => (rng.unit() - 0.5) * 2e6,
         _ => -0.0,
     };
     let steps = match rng.below(5) {
